@@ -8,10 +8,12 @@ use tower_resilience_hedge::{Hedge, HedgeError, HedgeLayer};
 
 pub struct HedgeAd {
     svc: Option<Handles<Hedge<Inner>>>,
+    w: Option<W>,
+    blk: bool,
 }
 impl HedgeAd {
     pub fn new() -> Self {
-        HedgeAd { svc: None }
+        HedgeAd { svc: None, w: None, blk: false }
     }
 }
 impl Adapter for HedgeAd {
@@ -19,7 +21,7 @@ impl Adapter for HedgeAd {
         "hedge"
     }
     fn gen_cfg(&mut self, rng: &mut Rng, _size: Size) -> Value {
-        json!({"hm": rng.below(4), "max": 1 + rng.below(4), "mode": *rng.pick(&["fixed", "fixed", "par", "dyn"]), "d": 1 + rng.below(3), "lazy": if rng.pct(30) { 1 } else { 0 }, "pre": rng.below(4), "ord": rng.below(2)})
+        json!({"hm": rng.below(4), "max": 1 + rng.below(4), "mode": *rng.pick(&["fixed", "fixed", "par", "dyn"]), "d": 1 + rng.below(3), "lazy": if rng.pct(30) { 1 } else { 0 }, "pre": rng.below(4), "ord": rng.below(2), "blk": if rng.pct(25) { 1 } else { 0 }})
     }
     fn build(&mut self, cfg: &Value, sim: &mut Sim) {
         // cfg.pre: an earlier, overridden delay setting of another kind (the last one wins); cfg.ord: the
@@ -44,11 +46,22 @@ impl Adapter for HedgeAd {
         if late_max {
             b = b.max_hedged_attempts(max);
         }
-        self.svc = Some(Handles::new(b.build().layer(Inner::new(&sim.w)), cfg["hm"].as_u64().unwrap_or(0)));
+        // (parked handles are replenished while readiness is blocked: no parked mode together with blk)
+        let hm = if cfg["blk"].as_u64().unwrap_or(0) == 1 && cfg["hm"].as_u64().unwrap_or(0) == 3 { 0 } else { cfg["hm"].as_u64().unwrap_or(0) };
+        self.svc = Some(Handles::new(b.build().layer(Inner::new(&sim.w)), hm));
+        // blk = 1: only the handle the caller drives to readiness becomes ready; every further clone of the
+        // wrapped service (the hedges' clones) stays Pending in poll_ready for ever
+        self.blk = cfg["blk"].as_u64().unwrap_or(0) == 1;
+        self.w = Some(sim.w.clone());
+        sim.w.lock().unwrap().block_ready = self.blk;
     }
     fn mk(&mut self, req: &Req) -> CallFut {
+        let w = self.w.clone().unwrap();
+        let blk = self.blk;
         let f = self.svc.as_mut().unwrap().with(|s| {
+            w.lock().unwrap().block_ready = false;
             ready_unless_parked(s);
+            w.lock().unwrap().block_ready = blk;
             s.call(req.clone())
         });
         Box::pin(async move {
